@@ -67,6 +67,17 @@ def run_entries(C, runner, entries, env_extra=None):
     log(f"[{C.pid}] real generator + generated code on {len(payload)} trees: {time.time() - t0:.1f}s")
     for k, e in enumerate(entries):
         e['result'] = res.get(k, {'driver_error': 'missing'})
+        if 'driver_error' in e['result']:
+            C.harness_failure('driver', f"tree {e['name']}: no result from the driver: {e['result']['driver_error'][:300]}")
+        outs = e['result'].get('results', [])
+        if e['result'].get('accepted') and not e['result'].get('import_error') and len(outs) != len(e.get('jobs', [])):
+            C.harness_failure('driver', f"tree {e['name']}: {len(outs)} results for {len(e.get('jobs', []))} jobs")
+        for job, out in zip(e.get('jobs', []), outs):
+            if 'harness_error' in out:
+                C.harness_failure('job', f"tree {e['name']}, {job.get('op')} {job.get('cls', '')}: {out['harness_error'][:300]}")
+            elif 'construct_error' in out and not (job.get('mutant') or job.get('valid') is False or job.get('may_not_construct')):
+                # a value produced by the value generator for this class could not even be constructed
+                C.harness_failure('construct', f"tree {e['name']}, {job.get('cls', '')}: {out['construct_error']} {out.get('msg', '')[:200]}")
         if e['result'].get('import_error') and e.get('jobs'):
             # an accepted tree whose generated package cannot be imported: nothing of it could be exercised
             if C.pid in ('C18', 'C20'):
@@ -139,8 +150,9 @@ def compare_entries(C, name, entries, label, want=('ser', 'deser'), max_cases_pe
             for i in f[:3]:
                 mism.append(dict(kind=cm[i]['kind'], entry=e, case=cm[i], term=cases[i]))
     nt = sum(1 for (e, cm) in metas for c in cm if (c['kind'] == 'ser' and c['out']['bytes']) or (c['kind'] == 'deser' and c['out']['data']))
-    C.stream('corr.' + label, ncases, nt, sample=(metas[0][1][0] if metas and metas[0][1] else None))
-    C.cov['traces_validated_against_impl'] += ncases
+    # every tree also contributes one comparison of its own: the generator's accept / reject verdict against the reference elaboration
+    C.stream('corr.' + label, ncases + len(items), nt + len(items), sample=(metas[0][1][0] if metas and metas[0][1] else None))
+    C.cov['traces_validated_against_impl'] += ncases + len(items)
     C.cov.setdefault('trees', {})[label] = dict(trees=len(items), accepted=sum(1 for i in items if i[1]), cases=ncases)
     return mism
 
@@ -424,4 +436,102 @@ def recover_stream(C, entries, name, per_file=40, timeout=600):
                                                           if items and items[0][1]['classes'] else None))
     C.cov.setdefault('trees', {})['recover'] = dict(trees=len(items), classes=n_classes, problems=len(problems))
     log(f"[{C.pid}] recover: {n_classes} classes of {len(items)} trees, {len(problems)} problem(s), {time.time() - t0:.1f}s")
+    return problems
+
+
+
+# ------------------------------------------------------------------------------------------------ semantic tie of `serialize` (statement level)
+def render_stream(C, entries, name, per_file=25, timeout=900):
+    """For every accepted entry that carries result['sources'] (entries run with want_sources=True): parse, with the GENERIC
+    fail-closed parser tools/py2stmt.py, the body of `serialize` of every generated class into the statement terms of
+    coq/Model/PyStmt.v, and check inside Coq (Model/RenderCheck.v, vm_compute) that they are syntactically equal to
+    `render_serialize` (Model/RenderSer.v) of the same class's body in `elab tree` - the function about which
+    Proofs/RenderSer.v proves: running these statements (interpreter of Model/PyStmt.v) = Model/Ser.v.
+    Classes whose body is outside the theorem's static side condition are counted separately ('outside the theorem').
+    Returns the list of problems: dict(tree, cls, what, ...)."""
+    import py2stmt
+    t0 = time.time()
+    items, problems = [], []
+    n_classes = 0
+    for e in entries:
+        r = e.get('result') or {}
+        if not r.get('accepted') or r.get('sources') is None:
+            continue
+        if e['name'].startswith('mini-eo-literals'):
+            continue      # non-ASCII literal text cannot be carried by the Coq string terms of this harness
+        try:
+            par = py2stmt.parse_sources(r['sources'])
+        except Exception as ex:          # the parser itself failed: fail closed
+            problems.append(dict(tree=e['name'], cls='<package>', what='parser crashed', detail=f"{type(ex).__name__}: {ex}"))
+            continue
+        bad = set()
+        for u in par['unparsed']:
+            bad.add(u.cls)
+            problems.append(dict(tree=e['name'], cls=u.cls, what='unparsed', lineno=u.lineno, why=u.why, dump=u.dump[:600]))
+        try:
+            terms = (py2stmt.coq_parsed(par['classes']), coq_tree(e['tree']))
+        except (ValueError, AssertionError) as ex:
+            problems.append(dict(tree=e['name'], cls='<package>', what='unparsed', why=f"not expressible as a Coq term: {ex}"))
+            continue
+        n_classes += len(par['classes'])
+        items.append((e, par, terms, bad))
+    os.makedirs(CASES, exist_ok=True)
+    procs = []
+    for off in range(0, len(items), per_file):
+        fn = os.path.join(CASES, f"{name}_render_{off // per_file}.v")
+        with open(fn, 'w') as f:
+            f.write("From EO Require Import Prelude.Py Prelude.Corr Model.Spec Model.Elab Model.PyStmt Model.RenderSer Model.RenderCheck.\n"
+                    "Open Scope string_scope.\nOpen Scope list_scope.\nOpen Scope Z_scope.\n")
+            for k, (e, par, terms, bad) in enumerate(items[off:off + per_file]):
+                f.write(f"Definition t{k} : list rfile := {terms[1]}.\n")
+                f.write(f"Definition p{k} : parsed :=\n  {terms[0]}.\n")
+                f.write(f"Eval vm_compute in (render_detail t{k} p{k}).\n")
+        while len([p for p in procs if p[0].poll() is None]) >= 4:
+            time.sleep(0.05)
+        p = subprocess.Popen(['bash', '-c', f'ulimit -s unlimited 2>/dev/null || ulimit -s 1000000; exec timeout {timeout} coqc -Q {COQ} EO -w -all {fn}'],
+                             stdout=subprocess.PIPE, stderr=subprocess.STDOUT, text=True, cwd=COQ)
+        procs.append((p, fn, off, min(per_file, len(items) - off)))
+    n_outside = 0
+    for p, fn, off, n in procs:
+        out, _ = p.communicate()
+        det = re.findall(r'=\s*(\[.*?\])\s*:\s*list \(string \* string\)', out, flags=re.S)
+        if p.returncode != 0 or len(det) != n:
+            problems.append(dict(tree='*', cls='<coq>', what='coqc failed on ' + fn, detail=out[-800:]))
+            continue
+        for k in range(n):
+            e, par, terms, bad = items[off + k]
+            for cls, what in re.findall(r'\("([^"]*)",\s*"([^"]*)"\)', det[k]):
+                if what == 'missing' and cls in bad:
+                    continue          # already reported as unparsed
+                if what == 'outside the theorem':
+                    n_outside += 1
+                    continue
+                pr = dict(tree=e['name'], cls=cls, what='mismatch: ' + what)
+                pr['parsed'] = dict(par['classes']).get(cls)
+                problems.append(pr)
+    shown = 0
+    for pr in problems:
+        if pr['what'].startswith('mismatch: ') and shown < 3:
+            e = next(x for x in entries if x['name'] == pr['tree'])
+            fn = os.path.join(CASES, f"{name}_render_show.v")
+            with open(fn, 'w') as f:
+                f.write("From EO Require Import Prelude.Py Prelude.Corr Model.Spec Model.Elab Model.PyStmt Model.RenderSer Model.RenderCheck.\n"
+                        "Open Scope string_scope.\nOpen Scope list_scope.\nOpen Scope Z_scope.\n")
+                f.write(f"Definition t : list rfile := {coq_tree(e['tree'])}.\nEval vm_compute in (render_show t {cs(pr['cls'])}).\n")
+            rc, out = sh(['timeout', '120', 'coqc', '-Q', COQ, 'EO', '-w', '-all', fn], cwd=COQ)
+            pr['model'] = re.sub(r'\s+', ' ', out)[-3000:]
+            shown += 1
+    if C is not None:
+        for pr in problems:
+            if pr['what'].startswith('mismatch') or pr['what'] == 'unparsed':
+                C.disagreement('render', dict(tree=pr['tree'], cls=pr['cls'], what=pr['what'], lineno=pr.get('lineno'), why=pr.get('why')),
+                               model=pr.get('model'), impl=pr.get('parsed') or pr.get('dump'))
+            else:
+                C.broken.append(dict(kind='correspondence', stream='render', msg=f"{pr['what']}: {pr.get('detail', '')}"[:1000]))
+        C.stream('corr.render', n_classes, n_classes, sample=(dict(tree=items[0][0]['name'], cls=items[0][1]['classes'][0][0], stmts=items[0][1]['classes'][0][1][:600])
+                                                              if items and items[0][1]['classes'] else None))
+        C.cov.setdefault('trees', {})['render'] = dict(trees=len(items), classes=n_classes, outside_theorem=n_outside, problems=len(problems))
+    log(f"[{C.pid if C is not None else '-'}] render: {n_classes} classes of {len(items)} trees, {n_outside} outside the theorem's static side condition, "
+        f"{len(problems)} problem(s), {time.time() - t0:.1f}s")
+    render_stream.last = dict(trees=len(items), classes=n_classes, outside_theorem=n_outside, problems=len(problems))
     return problems
